@@ -275,3 +275,22 @@ package tracker
 //@ -- progress records (and their inflight windows) are not shared between ids
 //@ pred opaque trk_distinct(p *ProgressTracker) := forall a uint64, b uint64 :: {has(p.Progress, a), has(p.Progress, b)}
 //@     has(p.Progress, a) && has(p.Progress, b) && a != b ==> p.Progress[a] != p.Progress[b]
+
+//@ -- ------------------------------------------------------------------------------------------
+//@ -- Config.Clone: fresh copies of the four id sets (nil stays nil); AutoLeave is not copied (callers set or require it false)
+
+//@ pred sameSet(a quorum.MajorityConfig, b quorum.MajorityConfig) := (forall id uint64 :: has(a, id) == has(b, id)) && len(a) == len(b) && ((a == nil) <==> (b == nil))
+//@ func tracker.Config.Clone$1
+//@   inline
+//@   loop 1 invariant #copying mm != nil && fresh(mm) && len(mm) == iter && (forall id uint64 :: has(mm, id) <==> seen(id))
+//@ func tracker.Config.Clone [C13]
+//@   frame elems quorum.MajorityConfig:
+//@   requires c != nil
+//@   ensures #copies [C13] sameSet(result.Voters[0], c.Voters[0]) && sameSet(result.Voters[1], c.Voters[1]) && sameSet(result.Learners, c.Learners) && sameSet(result.LearnersNext, c.LearnersNext)
+//@   ensures #fresh [C13] (result.Voters[0] != nil ==> fresh(result.Voters[0])) && (result.Voters[1] != nil ==> fresh(result.Voters[1]))
+//@        && (result.Learners != nil ==> fresh(result.Learners)) && (result.LearnersNext != nil ==> fresh(result.LearnersNext))
+//@   ensures #distinct [C13] (result.Voters[0] != result.Voters[1] || result.Voters[0] == nil) && (result.Voters[0] != result.Learners || result.Learners == nil)
+//@        && (result.Voters[0] != result.LearnersNext || result.LearnersNext == nil) && (result.Voters[1] != result.Learners || result.Learners == nil)
+//@        && (result.Voters[1] != result.LearnersNext || result.LearnersNext == nil) && (result.Learners != result.LearnersNext || result.Learners == nil)
+//@   ensures #auto-leave-dropped !result.AutoLeave
+//@   ensures #input-untouched [C13] allocframe("M$map[uint64]struct{}")
